@@ -145,6 +145,8 @@ func c17Child(args []string) int {
 		fmt.Println("C17VIOLATION " + string(jb))
 	}
 	ss := newSession(false)
+	// like the command line does for `grol ../scripts/run.gr`: the program is a script located outside the working directory
+	ss.s.CurrentFile = filepath.Join("..", "scripts", "run.gr")
 	// exec / run must not exist when restricted
 	for _, fn := range []string{"exec", "run"} {
 		o := ss.eval(fn, time.Second)
@@ -194,7 +196,7 @@ func c17Child(args []string) int {
 			}
 		}
 	}
-	markers := []string{"marker_outside", "marker_inner", "marker_xtxt", "marker_abs"}
+	markers := []string{"marker_outside", "marker_inner", "marker_xtxt", "marker_abs", "marker_scripts"}
 	accepted, rejected, sinceScan := 0, 0, 0
 	decision := map[string]bool{}
 	try := func(name, op string) {
@@ -280,6 +282,11 @@ func c17Seed(root string) {
 	_ = os.WriteFile(filepath.Join(root, "work", ".gr"), []byte("marker_dotgr=1\n"), 0o644)
 	_ = os.WriteFile(filepath.Join(root, "work", "x.txt"), []byte("marker_xtxt=1\n"), 0o644)
 	_ = os.WriteFile(filepath.Join(root, "work", "x.txt.gr"), []byte("marker_xtxt=1\n"), 0o644)
+	// the directory of the "script being run" (State.CurrentFile points into it): same names as in the working directory
+	_ = os.MkdirAll(filepath.Join(root, "scripts"), 0o755)
+	for _, f := range []string{"a.gr", ".gr", "Z.gr", "1.gr", "_.gr", "aa.gr", "run.gr"} {
+		_ = os.WriteFile(filepath.Join(root, "scripts", f), []byte("marker_scripts=1\n"), 0o644)
+	}
 }
 
 func (p c17) runConfig(c *fw.Ctx, cfg c17Cfg, maxLen int, single string, strace bool) {
